@@ -13,6 +13,7 @@ verus! {
 //@include lib/writeback.rs
 //@include lib/forest_iict.rs
 //@include lib/forest_incr.rs
+//@include lib/inv_specs.rs
 //@include lib/build_specs.rs
 } // verus!
 fn main() {}
